@@ -27,13 +27,17 @@ CFGS = [{}, {}, {}, {"skipws": False}, {"ws": " "}, {"ws": " \t\n"}, {"autokwd":
 
 
 class CtxDict(dict):
-    """dict keyed by position that silently extends the key by the parser's whitespace context."""
+    """dict keyed by position that silently extends the key by the parser's whitespace context (what="ws") or by
+    the flag that tells whether the parser is inside `_parse_comments` (what="comments")."""
 
-    def __init__(self, parser):
+    def __init__(self, parser, what="ws"):
         super().__init__()
         self.parser = parser
+        self.what = what
 
     def _k(self, pos):
+        if self.what == "comments":
+            return (pos, bool(getattr(self.parser, "in_parse_comments", False)))
         return (pos, self.parser.skipws, self.parser._ws)
 
     def __getitem__(self, pos):
@@ -149,6 +153,60 @@ def first_load(gtext, cfg, memo, text, want_nodes):
     return {"load": lo, "parse": pa, "same": nodes == want_nodes, "hits": getattr(got[0], "cache_hits", 0) if got else 0}
 
 
+def uniform_at(nodes, comments, skipws, ws):
+    """the dumped parser model is in the class for which C19 is *proved* on the mirror (Peg.UniformAt / Peg.uniformAtB):
+    no comment model, no eolterm, and every ws / skipws rule modifier restates the whitespace context (skipws, ws)
+    of the meta-model.  (Recomputed here from the statement of the class; the Lean recogniser must agree.)"""
+    if comments is not None:
+        return False
+    for nd in nodes:
+        if nd.get("ws") is not None and nd["ws"] != ws:
+            return False
+        if nd.get("skipws") is not None and bool(nd["skipws"]) != bool(skipws):
+            return False
+        if nd.get("eol"):
+            return False
+    return True
+
+
+def comment_shared(nodes, top, comments):
+    """the comment model and the grammar proper share a memoized (= non-terminal) parsing expression"""
+    if comments is None:
+        return False
+
+    def reach(r):
+        seen, todo = set(), [r]
+        while todo:
+            i = todo.pop()
+            if i not in seen:
+                seen.add(i)
+                nd = nodes[i]
+                todo += list(nd.get("kids", [])) + ([nd["sep"]] if nd.get("sep") is not None else [])
+        return seen
+
+    return any(nodes[i]["k"] not in ("str", "re", "eof") for i in reach(top) & reach(comments))
+
+
+def restate_modifiers(g, cfg, rng):
+    """turn the rule modifiers of grammar g into modifiers that RESTATE the configuration of the meta-model (the class
+    of parser models for which memoization is proved transparent): every rule with a modifier, and one or two more
+    rules, get [skipws] / [noskipws] / [ws=".."] with exactly the values of cfg (textX defaults where cfg is silent).
+    The ws value is written with literal tab / newline characters: textX normalises a value with backslash escapes to
+    the order \\n \\r \\t space, which is another string than the default "\\t\\n\\r " (Arpeggio restores / compares ws
+    as strings, and so does the class UniformAt)."""
+    sk = cfg.get("skipws", True)
+    ws = cfg.get("ws", "\t\n\r ")
+    rules = g["rules"]
+    extra = set(rng.sample(list(range(len(rules))), min(len(rules), rng.randint(1, 2))))
+    for i, r in enumerate(rules):
+        if r.get("params") or i in extra:
+            ch = rng.choice(["skipws", "ws", "both"])
+            r["params"] = {k: v for k, v in (("skipws", sk), ("ws", ws)) if ch in (k, "both")}
+            if "ws" in r["params"]:
+                r["params"]["wsq"] = '"'
+    return g
+
+
 def _drop_unreachable(gtext):
     """the grammar text (one rule per line, as rendered by gen_grammar) without the rules that can be reached neither
     from the first rule nor from the Comment rule"""
@@ -196,7 +254,13 @@ class Prop(Check):
     ID = "C19"
     LEAN_MODULE = "TextxVerif.Props.C19"
     THEOREMS = ["Peg.C19_posdet", "Peg.C19_partial", "Peg.C19_partial_agree", "Peg.C19_partial_accept",
-                "Peg.C19_full_false", "Peg.parse_le", "Peg.plain_sim", "Peg.memo_sim"]
+                "Peg.C19_full_false", "Peg.parse_le", "Peg.plain_sim", "Peg.memo_sim",
+                # round D19: constant whitespace context (modifiers restating it), converse termination, verdicts
+                "Peg.C19_at", "Peg.C19_at_diverges", "Peg.C19_partial_at", "Peg.C19_converse_at",
+                "Peg.C19_partial_agree_at", "Peg.C19_partial_accept_at", "Peg.C19_posdet_at", "Peg.C19_partial_warm_at",
+                "Peg.C19_statement_false", "Peg.C19_comment_false", "Tx.C19_load_at", "Peg.uniformAtB_sound",
+                "Peg.plain_sim_at", "Peg.memo_sim_at", "Peg.memo_rev", "Peg.memo_fin_plain", "Peg.bodyNode_ev",
+                "Peg.parseLim_ev"]
     DRIVER = "Drivers/Peg.lean"
     QUICK_CASES = 250
     CASE_TIMEOUT = 20
@@ -215,6 +279,17 @@ class Prop(Check):
     def gen(self, rng, n, tier):
         for i in range(n):
             r = rng.fork(i)
+            if i % 8 == 5:
+                # the class of the theorem C19_at: no Comment rule, no eolterm, modifiers that restate the configuration
+                # of the meta-model -- there memoization must be transparent without exception (no known finding applies)
+                r2 = r.fork(1)
+                gg = G.GrammarGen(r2, links=False, comment_p=0.0, eolterm=False, flavours=True)
+                g = gg.grammar()
+                cfg = r2.choice(CFGS)
+                g = restate_modifiers(g, cfg, r2)
+                texts = r2.shuffle(G.sentences(g, r2, 3, 2))
+                yield {"grammar": G.render_grammar(g), "cfg": cfg, "texts": texts, "restating": True}
+                continue
             gg = G.GrammarGen(r, links=False, composite_comment=True, flavours=True)
             g = gg.grammar()
             cfg = r.choice(CFGS)
@@ -238,6 +313,9 @@ class Prop(Check):
         res["nodes"], res["top"], res["comments"] = nodes, top, comments
         res["same_model"] = (nodes == nodes1 and top == top1 and comments == comments1)
         res["skipws"], res["ws"] = bool(p0.skipws), p0.ws
+        res["uniform_at"] = uniform_at(nodes, comments, res["skipws"], res["ws"])
+        res["comment_shared"] = comment_shared(nodes, top, comments)
+        res["modifiers"] = sum(1 for nd in nodes if nd.get("ws") is not None or nd.get("skipws") is not None)
         for t in case["texts"]:
             d = {"text": t}
             d["load0"], d["load1"] = memo_pair(lambda memo: load(mm1 if memo else mm0, t))
@@ -261,6 +339,13 @@ class Prop(Check):
                 d["parse1ctx"] = peg.real_parse(q2, t, objs1)
                 for o_ in objs1:
                     o_._result_cache = {}
+                # ... second classifier: cache key extended by "inside _parse_comments"
+                q4 = mm1._parser_blueprint.clone()
+                for o_ in objs1:
+                    o_._result_cache = CtxDict(q4, "comments")
+                d["parse1cctx"] = with_timeout(lambda: peg.real_parse(q4, t, objs1))
+                for o_ in objs1:
+                    o_._result_cache = {}
                 # ... and the disagreement must be reproducible from a clean cache state (not a stale-cache effect)
                 q3 = mm1._parser_blueprint.clone()
                 d["parse1fresh"] = with_timeout(lambda: peg.real_parse(q3, t, objs1))
@@ -277,6 +362,7 @@ class Prop(Check):
             fuel = min(20000, 60 + 8 * (len(d["text"]) + 2) * (len(obs["nodes"]) + 2))
             for memo in (False, True):
                 reqs.append({"input": d["text"], "toks": d["toks"], "memo": memo, "fuel": fuel})
+        reqs.append({"op": "uniformAt"})
         return {"op": "batch", "base": base, "reqs": reqs}
 
     @staticmethod
@@ -294,7 +380,17 @@ class Prop(Check):
             return f"model rejected the request: {out}"
         if not obs["same_model"]:
             return "memoization changes the compiled parser model"
+        ua = out["outs"][-1]
+        if ua != {"uniformAt": obs.get("uniform_at")}:
+            return f"class of the theorem C19_at: Lean recogniser {ua} vs statement of the class {obs.get('uniform_at')}"
+        if case.get("restating") and not obs.get("uniform_at"):
+            return "a grammar generated with restating modifiers compiles to a parser model outside the class UniformAt"
         for k, d in enumerate(obs["texts"]):
+            if obs.get("uniform_at"):
+                # C19_partial_accept_at on the mirror: plain run finished => the memoizing run gives the same outcome
+                m0, m1 = out["outs"][2 * k], out["outs"][2 * k + 1]
+                if m0.get("err") != "fuel" and m0 != m1:
+                    return f"text {d['text']!r}: mirror in the proved class differs: {str(m0)[:200]} vs {str(m1)[:200]}"
             for j, key in enumerate(("parse0", "parse1")):
                 m = out["outs"][2 * k + j]
                 if not self._same(d[key], m):
@@ -325,6 +421,10 @@ class Prop(Check):
     def classify(self, case, obs, failure):
         if "texts" not in obs:
             return None
+        if obs.get("uniform_at"):
+            # proved on the mirror (C19_at): within this class memoization is transparent; a whitespace-context clash
+            # needs a modifier that changes the context.  Nothing excuses a difference here.
+            return None
         bad = [d for d in obs["texts"] if _differs(d)]
         # the known finding does not depend on the history of the meta-model: the first parse of a fresh pair shows
         # exactly what the shared pair shows
@@ -334,6 +434,15 @@ class Prop(Check):
                        and not _ne(d["first0"]["parse"], d["parse0"]) and not _ne(d["first1"]["parse"], d["parse1"])
                        for d in bad):
             return "C19-memo-key-ignores-ws-context"
+        # second finding: a parsing expression shared by the Comment rule and the grammar proper is memoized under a key
+        # that ignores whether the parser is inside _parse_comments
+        if bad and obs.get("comment_shared") and all(
+                d["parse0"] != d["parse1"] and d.get("parse1cctx") == d["parse0"]
+                and d.get("parse1fresh") == d["parse1"]
+                and not _ne(d["first0"]["load"], d["load0"]) and not _ne(d["first1"]["load"], d["load1"])
+                and not _ne(d["first0"]["parse"], d["parse0"]) and not _ne(d["first1"]["parse"], d["parse1"])
+                for d in bad):
+            return "C19-memo-key-ignores-comment-context"
         return None
 
     def nontrivial(self, case, obs):
@@ -355,6 +464,10 @@ class Prop(Check):
                 "first_parses_tied_to_mirror": sum(1 for o in obs for d in o.get("texts", []) for j in (0, 1)
                                                    if d[f"first{j}"]["same"] and d[f"first{j}"]["parse"] is not None),
                 "grammars_with_suppressed_rule_refs": sum(1 for c in cases if __import__("re").search(r"\b[A-Z]\w*-", c["grammar"])),
+                "models_in_proved_class": sum(1 for o in obs if o.get("uniform_at")),
+                "models_in_proved_class_with_modifiers": sum(1 for o in obs if o.get("uniform_at") and o.get("modifiers")),
+                "texts_in_proved_class_with_modifiers_and_cache_hits": sum(
+                    1 for o in obs if o.get("uniform_at") and o.get("modifiers") for d in o.get("texts", []) if d.get("hits", 0) > 0),
                 "grammars_with_modifiers": sum(1 for c in cases if "[" in c["grammar"].split(":")[0] or "skipws" in c["grammar"] or "ws=" in c["grammar"])}
 
     def shrink(self, case):
